@@ -288,8 +288,13 @@ fn position_rule(m: &AcModel, newest: usize, b: &Snap, a: &Snap, st: &mut Stats)
         return Ok(());
     }
     let nonzero = s0.yz != 0 && s0.xz != 0 && s1.yz != 0 && s1.xz != 0;
-    let gap = (s0.t - s1.t).abs();
-    if !nonzero || gap >= 10 {
+    // signed virtual gap from the older slot to the frame just received; the real gap is v plus a few real
+    // milliseconds, so after the clock stepped back (v < 0) a virtual gap of exactly -10 s is a real gap just under 10 s
+    let slots = [s0, s1];
+    let v = slots[newest].t - slots[1 - newest].t;
+    let gap = v.abs();
+    let within = if v >= 0 { v < 10 } else { -v <= 10 };
+    if !nonzero || !within {
         return if unchanged { Ok(()) } else { Err(format!("position changed although the even/odd pair is not valid (gap {} s, zero field: {})", gap, !nonzero)) };
     }
     // rlat of both frames
